@@ -21,6 +21,7 @@ import IocProofs.Lemmas.M2Examples
 import IocProofs.Lemmas.SemFactory2
 import IocProofs.Lemmas.SemPopulate
 import IocProofs.Lemmas.SemInit
+import IocProofs.Lemmas.SemMisc
 namespace Ioc.C05
 open Ioc Ioc.M2 Ioc.M2.Lc
 
@@ -303,5 +304,21 @@ theorem C05_code_initialize_is_model (procs : List Nat) (before after : Nat → 
 example : Sem.initializeModel [1, 2] (fun p c => if p == 1 then .val (c + 1) else .val c) (fun _ c => .val c)
     { hasAps := fun _ => true, apsOk := fun _ => true, hasInit := fun _ => true, initOk := fun _ => true } 7 =
     (some 8, [.before 1, .before 2, .aps 8, .init 8, .after 1, .after 2]) := by decide
+
+/-- the short-circuit creation path, regenerated (delegate:178-211): ResolveBeforeInstantiation asks nobody without an
+    InstantiationAware processor; otherwise the InstantiationAware processors' PostProcessBeforeInstantiation in list order
+    until one fails or hands out a component, and a component handed out that way goes through the after-initialization
+    chain ONLY (no population, no init callbacks: it is the processor's own object) -/
+theorem C05_code_applyBeforeInstantiation (procs : List Nat) (isInst : Nat → Bool) (bi : Nat → Order.Res Nat) (w : List Nat) :
+    Go.run (Sem.abiPrims procs isInst bi) Progs.del_applyBeforeInstantiation [.str "meta", .str "n"] w =
+      some (Sem.encRes (Sem.abiLoop isInst bi procs).2, w ++ (Sem.abiLoop isInst bi procs).1) :=
+  Sem.applyBeforeInstantiation_sem procs isInst bi w
+
+theorem C05_code_ResolveBeforeInstantiation (hasInst : Bool) (bi : Order.Res Nat) (af : Nat → Option Nat) :
+    Go.run (Sem.rbiPrims hasInst bi af) Progs.del_ResolveBeforeInstantiation [.str "meta", .str "n"] [] =
+      some (Sem.encRes (Sem.rbiModel hasInst bi af).1, (Sem.rbiModel hasInst bi af).2) :=
+  Sem.resolveBeforeInstantiation_sem hasInst bi af
+
+example : Sem.abiLoop (fun p => p != 2) (fun p => if p == 3 then .val 8 else .nil) [1, 2, 3, 4] = ([1, 3], .val 8) := by rfl
 
 end Ioc.C05
